@@ -52,10 +52,11 @@ def _constant_cache_key(value: Any) -> Any:
     """Return a hashable key for a Python scalar that keeps 0.0 and -0.0 apart.
 
     ``0.0 == -0.0`` (and ``0 == -0.0``) in Python, so keying the constant cache on the
-    value alone would hand out the tensor of one for the other.
+    value alone would hand out the tensor of one for the other. The key of a float is
+    tagged so that it cannot equal the key of a sequence (``(0.0, 1.0) == (0, 1)``).
     """
     if isinstance(value, float):
-        return (value, math.copysign(1.0, value))
+        return ("float", value, math.copysign(1.0, value))
     return value
 
 
